@@ -57,10 +57,7 @@ let () = register "schemahist" (function
   | _ -> failwith "bad shist case")
 
 (* TIE-H: results projected on the HTTP answer *)
-let shttp_err = function
-  | M.EBase e -> Histrun.http_err M.V2 e
-  | M.ESchemaNotFound -> "404:NOT_FOUND" | M.ESchemaNotSpecified -> "400:SCHEMA_NOT_SPECIFIED"
-  | M.ESchemaValidation -> "400:VALIDATION" | M.ESchemaAlreadyExists -> "409:SCHEMA_ALREADY_EXISTS"
+let shttp_err e = let (st, c) = M.shttp_error e in Histrun.z_str st ^ ":" ^ string_of_chars c
 let sresult_sx_http = function
   | M.SOk (_, t, hit) -> L [A "ok"; Histrun.optz t; Histrun.b01 hit]   (* (the status of a success is checked by the harness) *)
   | M.SErr e -> L [A "err"; S (shttp_err e)]
